@@ -10,7 +10,7 @@ driver commands for the `cli` stream (C19/C20):
       fault    none | stdinMkstemp | stdinWrite | readInput | mkdtemp | copyRead | mkstempAuto |
                copyWrite | engineRaise | engineNoOutput | readReport | echo
       out      - | new | exists | force | newforce        (`-o`, `--force`)
-      ureports - | comma list of <kind><fmts>, kind p(lain) s(ubdir) e(scaping), fmts j c b(oth)
+      ureports - | comma list of <kind><fmts>, kind p(lain) s(ubdir) e(scaping `..`) a(bsolute), fmts j c b(oth)
   answer: exit <n> out <none|auto|user|any> id <hash|none> left <-|classes> ofile <-|written>
 
   cliexits   answer: the handler → exit code map of the model
@@ -45,6 +45,7 @@ def parseReport (i : Nat) (s : String) : Option RSpec :=
       if k == 'p' then some (s!"r{i}").toList
       else if k == 's' then some (s!"sub/r{i}").toList
       else if k == 'e' then some (s!"../esc{i}").toList
+      else if k == 'a' then some (s!"/abs/out{i}").toList
       else none
     match fmts, nm with
     | some fmts, some nm => some { id := (s!"u{i}").toList, name := nm, fmts := fmts }
